@@ -53,12 +53,24 @@ def discharge(ob: Obligation, tier="quick"):
     timeout = ob.timeout or (10 if tier == "quick" else 60)
     tried = []
     conj = _split_and(goal)
+    # hypotheses of the form  atom**k == rhs  (callee postconditions such as h^2 == x^2 + y^2) are used as rewriting relations
+    rels_all = list(ob.rels)
+    leads = {r[0] for r in rels_all}
+    for h in ob.hyps:
+        if isinstance(h, sp.Eq):
+            for l_, r_ in ((h.lhs, h.rhs), (h.rhs, h.lhs)):
+                base, k = (l_.base, l_.exp) if isinstance(l_, sp.Pow) else (l_, sp.Integer(1))
+                if isinstance(base, (sp.Symbol, sp.core.function.AppliedUndef)) and k.is_Integer and k > 0 and base not in leads and not sp.sympify(r_).has(base) \
+                        and ("!" in str(base)):
+                    rels_all.append((base, int(k), r_))
+                    leads.add(base)
+                    break
     # 1. exact normal form for (conjunctions of) equalities
     if "qqnf" in ob.backends and all(isinstance(c, sp.Eq) for c in conj):
         try:
             ok = True
             for c in conj:
-                if not B.nf_is_zero(c.lhs - c.rhs, ob.rels):
+                if not B.nf_is_zero(c.lhs - c.rhs, rels_all):
                     ok = False
                     break
             if ok:
